@@ -51,10 +51,10 @@ def generate():
     sk("skel_end", hdr, r"LogStreamBuffer::end\s*\(", ["sync"])
     sk("skel_write", app, r"AsyncFileAppender::write\s*\(", ["push"])
     sk("skel_discard", app, r"AsyncFileAppender::discard\s*\(", ["append_to_iovec", "push_back", "deallocate", "clear"])
-    sk("skel_close", app, r"AsyncFileAppender::close\s*\(", ["joinable", "push", "join"])
+    sk("skel_close", app, r"AsyncFileAppender::close\s*\(", ["joinable", "push", "join", "clear", "erase", "resize"])
     sk("skel_keep_writing", app, r"AsyncFileAppender::keep_writing\s*\(",
        ["capacity", "try_pop_n", "destination", "append_to_iovec", "check_and_get_file_descriptor", "close",
-        "write_use_plain_writev", "usleep"])
+        "write_use_plain_writev", "usleep", "clear", "deallocate", "writev"])
     sk("skel_write_use_plain_writev", app, r"AsyncFileAppender::write_use_plain_writev\s*\(",
        ["writev", "deallocate", "clear"])
 
@@ -101,6 +101,9 @@ def generate():
         if len(a) <= i or a[i] not in ("true", "false"):
             raise ExtractError("log: cannot read flag %d of %s: %r" % (i, what, flags))
         return "true" if a[i] == "true" else "false"
+    # several logging threads (and close()) push at the same time: the index must be claimed atomically
+    items.append("def writePushConcurrent : Bool := %s" % flag(re.sub(r"\s+", "", re.search(r"push\s*<([^>]*)>", wr).group(1)), 0, "write push"))
+    items.append("def closePushConcurrent : Bool := %s" % flag(close_flags, 0, "close push"))
     items.append("def writePushFutexWait : Bool := %s" % flag(re.sub(r"\s+", "", re.search(r"push\s*<([^>]*)>", wr).group(1)), 1, "write push"))
     items.append("def closePushFutexWait : Bool := %s" % flag(close_flags, 1, "close push"))
     items.append("def popFutexWake : Bool := %s" % flag(re.sub(r"\s+", "", re.search(r"try_pop_n\s*<([^>]*)>", kw).group(1)), 1, "try_pop_n"))
